@@ -55,20 +55,20 @@ type World struct {
 	revServer *grpctunnel.ReverseTunnelServer
 	stub      *Stub
 
-	tunnels []*tunnelState
-	rpcs    map[int]*rpcState
-	flags   map[string]bool
-	ids     map[int]int64
-	rawBuf  map[string][]byte
-	auto      bool // free-running mode: handlers follow autoPlans without a controller
-	pipeCap   int
-	autoPlans map[int]*autoPlan
-	rLocks    [MaxRPC]sync.Mutex
-	hands   map[int]*handState
-	allHands []*handState
+	tunnels     []*tunnelState
+	rpcs        map[int]*rpcState
+	flags       map[string]bool
+	ids         map[int]int64
+	rawBuf      map[string][]byte
+	auto        bool // free-running mode: handlers follow autoPlans without a controller
+	pipeCap     int
+	autoPlans   map[int]*autoPlan
+	rLocks      [MaxRPC]sync.Mutex
+	hands       map[int]*handState
+	allHands    []*handState
 	nwait       int
 	waitCancels []context.CancelFunc
-	hmu     sync.Mutex
+	hmu         sync.Mutex
 }
 
 type tunnelState struct {
@@ -427,7 +427,7 @@ type handState struct {
 	shape  string
 	hw, hr *actor
 	ctx    context.Context
-	ss     grpc.ServerStream        // streaming shapes
+	ss     grpc.ServerStream       // streaming shapes
 	dec    func(interface{}) error // unary
 	ret    chan handRet
 	nsent  int
